@@ -85,6 +85,7 @@ pub enum Ev {
     IbcRefund { channel: String, seq: u64, to: String, denom: String, amount: u128 },
     NativeCredit { to: String, denom: String, amount: u128 },
     Callback { contract: String, msg: String },
+    CallbackDropped { contract: String, err: String },
     Hook { channel: String, orig_sender: String, inter: String, contract: String, denom: String, amount: u128 },
     Oracle { oracle: String, sender: String, denom: String, purchase: String, redemption: String },
     WasmExec { sender: String, contract: String, msg: String, funds: Vec<(String, u128)> },
@@ -852,12 +853,24 @@ impl World {
                     self.native_mint(&p.receiver, &nd, p.amount);
                     self.log.push(Ev::NativeCredit { to: p.receiver.clone(), denom: nd, amount: p.amount });
                     self.log.push(Ev::IbcAck { channel: channel.into(), seq, success: true });
-                    sudo_msg = format!("{{\"ibc_lifecycle_complete\":{{\"ibc_ack\":{{\"channel\":\"{channel}\",\"sequence\":{seq},\"ack\":\"{{\\\"result\\\":\\\"AQ==\\\"}}\",\"success\":true}}}}}}");
+                    // the acknowledgement bytes are the counterparty's business; ibc-hooks reports success whenever
+                    // they carry no non-empty "error" member (osmoutils.IsAckError), whatever else they say
+                    let ack = match seq % 4 {
+                        1 => r#"{"result":"AQ==","error":""}"#,
+                        3 => r#"{"result":"eyJjb250cmFjdF9yZXN1bHQiOm51bGwsImliY19hY2siOiJleUp5WlhOMWJIUWlPaUpCVVQwOUluMD0ifQ=="}"#,
+                        _ => r#"{"result":"AQ=="}"#,
+                    };
+                    sudo_msg = format!("{{\"ibc_lifecycle_complete\":{{\"ibc_ack\":{{\"channel\":\"{channel}\",\"sequence\":{seq},\"ack\":{},\"success\":true}}}}}}", serde_json::to_string(ack).unwrap());
                 }
                 PStatus::ErrAcked => {
                     self.refund(&p);
                     self.log.push(Ev::IbcAck { channel: channel.into(), seq, success: false });
-                    sudo_msg = format!("{{\"ibc_lifecycle_complete\":{{\"ibc_ack\":{{\"channel\":\"{channel}\",\"sequence\":{seq},\"ack\":\"{{\\\"error\\\":\\\"ABCI code: 1\\\"}}\",\"success\":false}}}}}}");
+                    let ack = match seq % 3 {
+                        1 => r#"{"error":"ABCI code: 5: error handling packet: see events for details"}"#,
+                        2 => r#"{"result":"AQ==","error":"ABCI code: 1"}"#,
+                        _ => r#"{"error":"ABCI code: 1"}"#,
+                    };
+                    sudo_msg = format!("{{\"ibc_lifecycle_complete\":{{\"ibc_ack\":{{\"channel\":\"{channel}\",\"sequence\":{seq},\"ack\":{},\"success\":false}}}}}}", serde_json::to_string(ack).unwrap());
                 }
                 PStatus::TimedOut => {
                     if p.timeout_ns == 0 || self.now_ns <= p.timeout_ns {
@@ -873,7 +886,20 @@ impl World {
             if let Some(cb) = &p.callback {
                 if self.contracts.contains_key(cb) {
                     self.log.push(Ev::Callback { contract: cb.clone(), msg: sudo_msg.clone() });
-                    self.sudo_inner(cb, sudo_msg.as_bytes()).map_err(|e| format!("sim:ibc:callback failed: {e}"))?;
+                    if outcome == PStatus::TimedOut {
+                        // ibc-hooks: a timeout callback the contract refuses does not undo the timeout (the refund stands,
+                        // the callback is dropped and never retried); only the callback's own writes are discarded
+                        let before = self.clone();
+                        if let Err(e) = self.sudo_inner(cb, sudo_msg.as_bytes()) {
+                            let log = std::mem::take(&mut self.log);
+                            *self = before;
+                            self.log = log;
+                            self.log.push(Ev::CallbackDropped { contract: cb.clone(), err: e });
+                        }
+                    } else {
+                        // an acknowledgement whose callback fails is not processed (the relayer may retry it)
+                        self.sudo_inner(cb, sudo_msg.as_bytes()).map_err(|e| format!("sim:ibc:callback failed: {e}"))?;
+                    }
                 }
             }
             Ok(vec![])
